@@ -380,4 +380,6 @@ def _run_own(ck):
 
 def run(ck, **kw):
     _run_own(ck)
+    if kw.get('own_only'):
+        return        # (included by a property that already evaluates C01's clauses through another dependency)
     ck.include('C01', 'the simplifier that runs while the diagram is built, and on every diagram it hands on, may apply a rule only under a matcher that establishes its precondition', parts=['D1', 'D2'])
